@@ -480,6 +480,7 @@ static void run_case(long id, uint64_t seed)
 	nl = 1 + (int)rng_pct(&r, 30);
 	mt_start_loops(nl, cs);
 	mt_join_loops();
+	mt_check_thread_fds(g_method);
 
 	if (n_thr_created != n_thr_joined + n_thr_detached)
 		mon_viol("C13", "thread-not-joined", g_method, "%ld threads created, %ld joined, %ld detached at the end of the case",
